@@ -36,7 +36,7 @@ type T2 struct {
 type deleg struct{ inner valid.CacheEr }
 
 func (d *deleg) Load(k interface{}) (interface{}, bool) { return d.inner.Load(k) }
-func (d *deleg) Store(k, v interface{})                  { d.inner.Store(k, v) }
+func (d *deleg) Store(k, v interface{})                 { d.inner.Store(k, v) }
 
 func errText(err error) string {
 	if err == nil {
@@ -105,7 +105,9 @@ func callMenu() []callT {
 			p.Elem().Field(1).Set(reflect.ValueOf(T1{F: "", G: 5}))
 			return []interface{}{p.Interface()}
 		}, func(a []interface{}) string { return errText(valid.Struct(a[0])) },
-			func(t int) string { return `"F" input "", explain: need; ".N.F" input "", explain: need-F; ".N.G" input "5", explain: it is more than 3 num-size` }},
+			func(t int) string {
+				return `"F" input "", explain: need; ".N.F" input "", explain: need-F; ".N.G" input "5", explain: it is more than 3 num-size`
+			}},
 	}
 }
 
